@@ -23,6 +23,8 @@ mod value;
 mod context;
 mod descriptor;
 mod init;
+#[cfg(feature = "verif_hooks")]
+pub mod verif_hooks;
 use std::sync::Arc;
 
 /// ## Usage
